@@ -421,6 +421,11 @@ def parse_metadata(src):
             for fm in re.finditer(r'(\w+): (!\d+|"(?:[^"\\]|\\.)*"|\d+|\w+)', body):
                 d[fm.group(1)] = fm.group(2)
             MD[m.group(1)] = d
+def clean_fn_name(n):
+    if n.startswith('operator'):
+        m = re.match(r'operator\s*(<<=?|<=>?|<|>>=?|>=|>|\(\)|\[\]|[^<]*)', n)
+        return 'operator' + m.group(1).strip()
+    return re.sub(r'<.*$', '', n)
 def dbg_info(ref):
     """ref: '123' -> (innermost function name, line, outermost->innermost chain)"""
     if ref is None or ref not in MD: return None
@@ -431,7 +436,7 @@ def dbg_info(ref):
         while scope and seen < 50:
             n = MD.get(scope.lstrip('!'))
             if n is None: return None
-            if n['kind'] == 'DISubprogram': return re.sub(r'<.*$', '', n.get('name', '""').strip('"'))
+            if n['kind'] == 'DISubprogram': return clean_fn_name(n.get('name', '""').strip('"'))
             scope = n.get('scope'); seen += 1
         return None
     fn = subprogram(loc.get('scope'))
